@@ -161,6 +161,210 @@ def task_autograd_functions(ctx):
         ctx.ok("SCF.forward.class-state-written-in-the-same-call", "frames", detail="%d constructor-and-apply expressions" % len(fam))
 
 
+
+# ---- module-level state written by functions: a generic cache contract ------------------------------------------------
+_MUT_CALLS = {"dict", "list", "set", "defaultdict", "OrderedDict", "deque", "Counter", "WeakKeyDictionary", "WeakValueDictionary"}
+_MUT_METHODS = {"setdefault", "update", "append", "add", "extend", "insert", "__setitem__"}
+_TORCH_FACTORIES = {"zeros", "ones", "empty", "full", "tensor", "as_tensor", "eye", "rand", "randn", "linspace", "arange", "zeros_like_default", "FloatTensor", "Tensor"}
+_AMBIENT_CALLS = {"get_default_dtype": "ambient:default-dtype", "get_default_device": "ambient:default-device", "is_grad_enabled": "ambient:grad-mode", "get_num_threads": "ambient:num-threads",
+                  "getenv": "ambient:environment", "time": "ambient:clock", "perf_counter": "ambient:clock", "random": "ambient:rng", "rand": "ambient:rng", "randn": "ambient:rng", "getcwd": "ambient:cwd"}
+
+
+def _expr_deps(node, env, params, local_names):
+    """names an expression's value can depend on: function parameters, ambient process state read by a call, and (through
+    env) whatever the locals it loads depend on.  Module-level names and builtins are constants of the process."""
+    out = set()
+    for n in ast.walk(node):
+        if isinstance(n, ast.Name) and isinstance(n.ctx, ast.Load):
+            if n.id in params:
+                out.add(n.id)
+            elif n.id in local_names:
+                out |= env.get(n.id, set())
+        elif isinstance(n, ast.Call):
+            fname = n.func.attr if isinstance(n.func, ast.Attribute) else (n.func.id if isinstance(n.func, ast.Name) else None)
+            owner = ast.unparse(n.func.value) if isinstance(n.func, ast.Attribute) else ""
+            if fname in _TORCH_FACTORIES and owner in ("torch", "th") and not any(k.arg == "dtype" for k in n.keywords):
+                # torch.tensor(python ints) is long whatever the default; floats follow the default dtype
+                ints_only = fname in ("tensor", "as_tensor") and n.args and all(isinstance(c, ast.Constant) and isinstance(c.value, (int, bool)) for c in ast.walk(n.args[0]) if isinstance(c, ast.Constant)) and not any(isinstance(c, (ast.Name, ast.Call, ast.Attribute)) for c in ast.walk(n.args[0]))
+                if not ints_only:
+                    out.add("ambient:default-dtype")
+            if fname in _AMBIENT_CALLS and (owner in ("torch", "os", "time", "random", "np.random", "numpy.random") or (fname in ("get_default_dtype", "get_default_device"))):
+                out.add(_AMBIENT_CALLS[fname])
+            if fname == "open" and not owner:
+                out.add("external:file-content")
+        elif isinstance(n, ast.Attribute) and ast.unparse(n) == "os.environ":
+            out.add("ambient:environment")
+    return out
+
+
+def _function_dataflow(fn):
+    """flow-insensitive dependence sets of a function's locals, with control dependence on enclosing tests and in-place
+    stores into a local counted as assignments to it (fixpoint)."""
+    a = fn.args
+    params = {x.arg for x in a.posonlyargs + a.args + a.kwonlyargs} | ({a.vararg.arg} if a.vararg else set()) | ({a.kwarg.arg} if a.kwarg else set())
+    local_names = set()
+    for n in ast.walk(fn):
+        if isinstance(n, ast.Name) and isinstance(n.ctx, ast.Store):
+            local_names.add(n.id)
+    local_names -= params and set()
+    env = {}
+    edges = []  # (target local, expression nodes it takes its value from, control tests)
+
+    def tnames(t):
+        return [x.id for x in ast.walk(t) if isinstance(x, ast.Name) and isinstance(x.ctx, ast.Store)]
+
+    def base_name(t):
+        while isinstance(t, (ast.Subscript, ast.Attribute)):
+            t = t.value
+        return t.id if isinstance(t, ast.Name) else None
+
+    def visit(stmts, ctrl):
+        for st_ in stmts:
+            if isinstance(st_, ast.Assign):
+                for t in st_.targets:
+                    for nm in tnames(t):
+                        edges.append((nm, [st_.value], ctrl))
+                    if isinstance(t, (ast.Subscript, ast.Attribute)) and base_name(t):
+                        edges.append((base_name(t), [st_.value, t], ctrl))
+            elif isinstance(st_, ast.AugAssign):
+                nm = base_name(st_.target)
+                if nm:
+                    edges.append((nm, [st_.value, st_.target], ctrl))
+            elif isinstance(st_, ast.AnnAssign) and st_.value is not None:
+                nm = base_name(st_.target)
+                if nm:
+                    edges.append((nm, [st_.value], ctrl))
+            elif isinstance(st_, (ast.For, ast.AsyncFor)):
+                for nm in tnames(st_.target):
+                    edges.append((nm, [st_.iter], ctrl))
+                visit(st_.body, ctrl + [st_.iter])
+                visit(st_.orelse, ctrl + [st_.iter])
+            elif isinstance(st_, ast.While):
+                visit(st_.body, ctrl + [st_.test])
+                visit(st_.orelse, ctrl + [st_.test])
+            elif isinstance(st_, ast.If):
+                visit(st_.body, ctrl + [st_.test])
+                visit(st_.orelse, ctrl + [st_.test])
+            elif isinstance(st_, (ast.With, ast.AsyncWith)):
+                for it in st_.items:
+                    if it.optional_vars is not None:
+                        for nm in tnames(it.optional_vars):
+                            edges.append((nm, [it.context_expr], ctrl))
+                visit(st_.body, ctrl)
+            elif isinstance(st_, ast.Try):
+                visit(st_.body, ctrl)
+                for h in st_.handlers:
+                    visit(h.body, ctrl)
+                visit(st_.orelse, ctrl)
+                visit(st_.finalbody, ctrl)
+            elif isinstance(st_, ast.Expr) and isinstance(st_.value, ast.Call) and isinstance(st_.value.func, ast.Attribute):
+                # in-place method on a local: x.append(e), x.copy_(e), x.add_(e)
+                nm = base_name(st_.value.func.value)
+                if nm:
+                    edges.append((nm, list(st_.value.args) + [k.value for k in st_.value.keywords], ctrl))
+            # walrus targets anywhere in the statement
+            for w in ast.walk(st_):
+                if isinstance(w, ast.NamedExpr):
+                    edges.append((w.target.id, [w.value], ctrl))
+
+    visit(fn.body, [])
+    changed = True
+    while changed:
+        changed = False
+        for nm, exprs, ctrl in edges:
+            d = set()
+            for e in exprs + ctrl:
+                d |= _expr_deps(e, env, params, local_names)
+            if nm in params:
+                d.add(nm)
+            if not d <= env.get(nm, set()):
+                env[nm] = env.get(nm, set()) | d
+                changed = True
+    return env, params, local_names
+
+
+def _module_state_sites():
+    """every statement in the package, inside a function, that stores into a module-level container of its own module (or
+    rebinds a module-level name through `global`), and every memoising decorator."""
+    import seqm, pkgutil, importlib.util
+
+    sites = []
+    for mi in pkgutil.walk_packages(seqm.__path__, "seqm."):
+        try:
+            origin = importlib.util.find_spec(mi.name).origin
+            tree = ast.parse(open(origin).read())
+        except Exception:  # noqa
+            continue
+        containers = set()
+        for n in tree.body:
+            v, tg = None, []
+            if isinstance(n, ast.Assign):
+                tg, v = [t.id for t in n.targets if isinstance(t, ast.Name)], n.value
+            elif isinstance(n, ast.AnnAssign) and isinstance(n.target, ast.Name) and n.value is not None:
+                tg, v = [n.target.id], n.value
+            if v is not None and (isinstance(v, (ast.Dict, ast.List, ast.Set, ast.ListComp, ast.DictComp, ast.SetComp)) or (isinstance(v, ast.Call) and (getattr(v.func, "id", None) or getattr(v.func, "attr", None)) in _MUT_CALLS)):
+                containers |= set(tg)
+        for fn in ast.walk(tree):
+            if not isinstance(fn, (ast.FunctionDef, ast.AsyncFunctionDef)):
+                continue
+            for d in fn.decorator_list:
+                if "cache" in ast.unparse(d):
+                    sites.append({"module": mi.name, "function": fn.name, "kind": "memoising-decorator", "container": ast.unparse(d), "line": fn.lineno, "fn": fn, "key": None, "value": None})
+            globs = {g for n in ast.walk(fn) if isinstance(n, ast.Global) for g in n.names}
+            rebound = {n.id for n in ast.walk(fn) if isinstance(n, ast.Name) and isinstance(n.ctx, ast.Store)} | {x.arg for x in fn.args.args + fn.args.kwonlyargs}
+            shadow = rebound - globs
+            for n in ast.walk(fn):
+                if isinstance(n, (ast.Assign, ast.AugAssign)):
+                    for t in (n.targets if isinstance(n, ast.Assign) else [n.target]):
+                        if isinstance(t, ast.Subscript) and isinstance(t.value, ast.Name) and t.value.id in containers and t.value.id not in shadow:
+                            sites.append({"module": mi.name, "function": fn.name, "kind": "store", "container": t.value.id, "line": n.lineno, "fn": fn, "key": t.slice, "value": n.value})
+                        if isinstance(t, ast.Name) and t.id in globs:
+                            sites.append({"module": mi.name, "function": fn.name, "kind": "global-rebind", "container": t.id, "line": n.lineno, "fn": fn, "key": None, "value": n.value})
+                if isinstance(n, ast.Call) and isinstance(n.func, ast.Attribute) and n.func.attr in _MUT_METHODS and isinstance(n.func.value, ast.Name) and n.func.value.id in containers and n.func.value.id not in shadow:
+                    key = n.args[0] if n.func.attr in ("setdefault", "__setitem__") and n.args else None
+                    val = n.args[1] if n.func.attr in ("setdefault", "__setitem__") and len(n.args) > 1 else (n.args[0] if n.args else None)
+                    sites.append({"module": mi.name, "function": fn.name, "kind": "method:" + n.func.attr, "container": n.func.value.id, "line": n.lineno, "fn": fn, "key": key, "value": val})
+    return sites
+
+
+_DTYPE_HISTORY_SCRIPT = r"""
+import json, sys, io, contextlib
+import torch
+from seqm.seqm_functions.constants import Constants
+from seqm.Molecule import Molecule
+from seqm.ElectronicStructure import Electronic_Structure
+def job(dt, species, xyz):
+    torch.set_default_dtype(dt)
+    params = {"method": "AM1", "scf_eps": 1e-9 if dt == torch.float64 else 1e-4, "scf_converger": [1], "sp2": [False, 1e-5], "elements": [0, 1, 8], "learned": [], "pair_outer_cutoff": 1e10, "eig": True}
+    mol = Molecule(Constants(), params, torch.tensor(xyz, dtype=dt), torch.tensor(species))
+    Electronic_Structure(params)(mol)
+    return {"Etot": repr(float(mol.Etot[0])), "force": [repr(float(v)) for v in mol.force.reshape(-1)]}
+water = ([[8, 1, 1]], [[[0.0, 0.0, 0.0], [0.96, 0.0, 0.0], [-0.24, 0.93, 0.0]]])
+with contextlib.redirect_stdout(io.StringIO()):
+    if sys.argv[1] == "history":
+        job(torch.float32, *water)
+    res = job(torch.float64, *water)
+print("RESULT" + json.dumps(res))
+"""
+
+
+def replay_dtype_history(model=None):
+    """real code, two fresh interpreters: float64 AM1 water (Etot, forces) as the first job of a process, and the same call
+    after a float32 job on the same molecule; the property demands bitwise the same numbers."""
+    import json, subprocess, sys, os
+
+    env = dict(os.environ, PYTHONWARNINGS="ignore", OMP_NUM_THREADS="2")
+    got = {}
+    for mode in ("fresh", "history"):
+        p = subprocess.run([sys.executable, "-c", _DTYPE_HISTORY_SCRIPT, mode], capture_output=True, text=True, timeout=600, env=env)
+        for line in p.stdout.splitlines():
+            if line.startswith("RESULT"):
+                got[mode] = json.loads(line[6:])
+        if mode not in got:
+            return {"reproduced": False, "error": (p.stderr or p.stdout)[-300:]}
+    return {"reproduced": got["fresh"] != got["history"], "float64_water_as_first_job": got["fresh"], "float64_water_after_a_float32_job_in_the_same_process": got["history"]}
+
+
 def task_caches(ctx):
     """O3: module-level caches: the key determines the value (id(base) keys only for module-level constants that are never
     mutated in place)."""
@@ -190,6 +394,43 @@ def task_caches(ctx):
         s = inspect.getsource(getattr(FK, fname))
         ok = "cached = base.to(" in s and "key = (id(base), device" in s
         (ctx.ok if ok else ctx.fail)("%s.value-is-a-function-of-the-key" % fname, "frames" if ok else "cache fill rule changed")
+    # whole package: every function-level store into module-level state is a cache whose value is determined by its key
+    sites = _module_state_sites()
+    ctx.notes.append("module-level state written inside functions (whole package): %s" % ["%s:%s %s %s" % (s_["module"], s_["function"], s_["kind"], s_["container"]) for s_ in sites])
+    if not sites:
+        ctx.error("module-state.sites", "no module-level cache found (fock has two): the scan is vacuous")
+    for s_ in sites:
+        ctx.under_contract("%s:%s" % (s_["module"], s_["function"]), note="cache contract: stored value is a function of the key")
+        name = "module-state.%s.%s[%s].stored-value-is-determined-by-the-key" % (s_["module"].split(".")[-1], s_["function"], s_["container"])
+        if s_["kind"] in ("memoising-decorator", "global-rebind") or s_["key"] is None or s_["value"] is None:
+            env, params, loc = _function_dataflow(s_["fn"])
+            amb = set()
+            for n in ast.walk(s_["fn"]):
+                if isinstance(n, ast.expr):
+                    amb |= {d for d in _expr_deps(n, {}, set(), set()) if d.startswith("ambient:")}
+            if amb:
+                ctx.fail(name, "%s of %s reads %s: the remembered value depends on process state that is not part of the arguments" % (s_["kind"], s_["function"], sorted(amb)), replay=_quiet(replay_dtype_history), witness_class="cache-value-depends-on-ambient-state")
+            else:
+                ctx.ok(name, "dataflow", detail="%s; no ambient read in the function body" % s_["kind"])
+            continue
+        env, params, loc = _function_dataflow(s_["fn"])
+        kd = _expr_deps(s_["key"], env, params, loc)
+        vd = _expr_deps(s_["value"], env, params, loc)
+        extra = {d for d in vd - kd if d != "external:file-content"}
+        if extra:
+            ctx.fail(name, "line %d: %s[%s] = %s; the value depends on %s, the key only on %s" % (s_["line"], s_["container"], ast.unparse(s_["key"]), ast.unparse(s_["value"])[:60], sorted(extra), sorted(kd)),
+                     replay=_quiet(replay_dtype_history), witness_class="cache-value-depends-on-state-outside-the-key")
+        else:
+            ctx.ok(name, "dataflow", detail="value depends on %s; key on %s" % (sorted(vd), sorted(kd)))
+        if "external:file-content" in vd:
+            ctx.assume_note("cache %s.%s: file content is taken to be determined by its path for the life of the process" % (s_["module"], s_["container"]))
+    # canary: the dataflow does see an ambient dtype dependence that the key omits
+    canary = ast.parse("def f(a, b):\n    p = torch.zeros((a, 2))\n    for l in b:\n        p[l] = torch.tensor([1.5])\n    _T[(a, tuple(b))] = p\n").body[0]
+    env, params, loc = _function_dataflow(canary)
+    st_ = canary.body[-1]
+    miss = _expr_deps(st_.value, env, params, loc) - _expr_deps(st_.targets[0].slice, env, params, loc)
+    (ctx.ok if miss == {"ambient:default-dtype"} else ctx.error)("canary.dataflow-sees-a-default-dtype-dependence-missing-from-the-key", "dataflow" if miss == {"ambient:default-dtype"} else "got %r" % (miss,))
+    ctx.assume_note("cache contract is intraprocedural: callees are taken to be functions of their arguments; ambient reads recognised: torch factories without dtype=, get_default_dtype/device, grad mode, thread count, environment, clock, rng")
 
 
 def task_mutable_defaults(ctx):
@@ -664,6 +905,16 @@ def task_global_state_frame(ctx):
     else:
         ctx.fail(name, "float32 single point: %r as the first job, %r after a float64 resume in the same process" % (res["job_B_first_in_process"], res["job_B_after_resume"]), replay=rep,
                  witness_class="process-global-state-written", backend="bounded:runtime-contract")
+    hist = replay_dtype_history()
+    name = "a-float64-job-after-a-float32-job-returns-what-it-returns-as-the-first-job-of-a-process"
+    if "error" in hist:
+        ctx.error(name, hist["error"])
+    elif hist["reproduced"]:
+        ctx.fail(name, "AM1 water, Etot %s as the first job, %s after a float32 job" % (hist["float64_water_as_first_job"]["Etot"], hist["float64_water_after_a_float32_job_in_the_same_process"]["Etot"]), replay=hist,
+                 witness_class="result-depends-on-dtype-history", backend="bounded:runtime-contract")
+    else:
+        ctx.ok(name, "bounded:runtime-contract", detail="bitwise equal Etot and 9 force components")
+    ctx.bounded.append({"what": "dtype history", "bound": "one concrete history in fresh interpreters: float32 AM1 water then float64 AM1 water, against float64 AM1 water alone", "why_not_proved": "as above"})
     ctx.bounded.append({"what": "frame on process-global torch state", "bound": "one concrete history in a fresh interpreter: float32 H2 single point, float64 H2 MD run (4 steps, checkpoint every 2), run_from_checkpoint, float32 single point again",
                         "why_not_proved": "global interpreter state is outside the symbolic shim; the static list of setter call sites is in the notes"})
 
